@@ -227,7 +227,7 @@ def random_fault(rng, data, kind, raw_offsets=None):
         return {"kind": kind, "n": rng.randint(0, n), "bs": bs, "fill": rng.choice(["nul", "nul", "stale", "x"]),
                 "stale_off": rng.randint(0, max(0, n - 1))}
     if kind == "line_blowup":
-        return {"kind": kind, "i": rng.randrange(max(1, len(_lines(data)))), "size": rng.choice([5_000, 70_000, 1_000_000])}
+        return {"kind": kind, "i": rng.randrange(max(1, len(_lines(data)))), "size": rng.choice([5_000, 70_000, 250_000])}
     if kind == "deep_nesting":
         return {"kind": kind, "off": rng.choice([0, 1, rng.randrange(max(1, n))]), "open": rng.choice(["[", "{\"a\":", "(", "[["]),
                 "depth": rng.choice([50, 2000, 100_000])}
